@@ -74,3 +74,42 @@ Lemma tab_ext {A} sh (f g : list nat -> A) : (forall idx, in_bounds sh idx -> f 
 Proof.
   intros H. unfold tab. f_equal. apply map_ext_in. intros idx Hi. apply H. now apply in_all_idx.
 Qed.
+
+(* ---- row-major enumeration: the k-th multi-index ravels to k -------------------------------- *)
+Lemma flat_map_seq_blocks m n s : flat_map (fun i => seq (i * m) m) (seq s n) = seq (s * m) (n * m).
+Proof.
+  revert s. induction n as [|n IH]; intros s; simpl; auto.
+  rewrite IH. replace (S s * m) with (s * m + m) by lia. now rewrite <- seq_app.
+Qed.
+
+Lemma map_flat_map {A B C} (f : B -> C) (g : A -> list B) l : map f (flat_map g l) = flat_map (fun x => map f (g x)) l.
+Proof. induction l as [|x l IH]; simpl; auto. now rewrite map_app, IH. Qed.
+
+Lemma map_add_seq b m : map (fun k => b + k) (seq 0 m) = seq b m.
+Proof.
+  revert b. induction m as [|m IH]; intros b; simpl; auto. rewrite Nat.add_0_r. f_equal.
+  rewrite <- seq_shift, map_map. rewrite <- (IH (S b)). apply map_ext. intros k. lia.
+Qed.
+
+Lemma ravel_all_idx sh : map (ravel sh) (all_idx sh) = seq 0 (size sh).
+Proof.
+  induction sh as [|n r IH]; simpl; auto.
+  rewrite map_flat_map.
+  transitivity (flat_map (fun i => seq (i * size r) (size r)) (seq 0 n)).
+  - apply flat_map_ext. intros i. rewrite map_map. simpl.
+    rewrite <- (map_map (ravel r) (fun k => i * size r + k)), IH. apply map_add_seq.
+  - now rewrite flat_map_seq_blocks.
+Qed.
+
+(* a well-formed tensor is determined by its shape and its elements *)
+Lemma map_nth_seq {A} (l : list A) d : map (fun k => nth k l d) (seq 0 (length l)) = l.
+Proof.
+  induction l as [|x l IH]; simpl; auto. f_equal. rewrite <- seq_shift, map_map. exact IH.
+Qed.
+
+Theorem tab_get_id {A} (t : tensor A) d : wf t -> tab (shape t) (fun idx => get t idx d) = t.
+Proof.
+  intros H. unfold tab, get. destruct t as [sh dat]; simpl in *. f_equal.
+  rewrite <- (map_map (ravel sh) (fun k => nth k dat d)), ravel_all_idx.
+  unfold wf in H; simpl in H. rewrite <- H. apply map_nth_seq.
+Qed.
